@@ -261,6 +261,24 @@ func (p c18) pair(c *fw.Ctx, base, oldKind, newKind string) {
 		v := c18Exec(dir, nil, "dump").stdout
 		if v != vOld && v != vNew {
 			c.Violate("torn-state", "torn-state:"+strings.Join(strings.Split(f.name, ":")[:3], ":"), cs, fmt.Sprintf("a fresh session auto-loads a state that is neither the previous nor the new one: %q", clip(v)))
+			continue
+		}
+		// what the interrupted save left behind (temporary files) must not leak into the NEXT save: a small follow-up
+		// session in this directory must write the same file as in a directory that holds nothing but the state file
+		follow := "zz_followup = 42\n"
+		_ = os.WriteFile(filepath.Join(dir, "follow.prog"), []byte(follow), 0o644)
+		fr := c18Exec(dir, nil, "run", "follow.prog")
+		clean := c18Fresh(base, "clean", got, gotExists, follow)
+		_ = os.Rename(filepath.Join(clean, "new.prog"), filepath.Join(clean, "follow.prog"))
+		cr := c18Exec(clean, nil, "run", "follow.prog")
+		if strings.Contains(fr.stdout, "C18DONE") && strings.Contains(cr.stdout, "C18DONE") {
+			a, aok := readOrEmpty(filepath.Join(dir, ".gr"))
+			b, bok := readOrEmpty(filepath.Join(clean, ".gr"))
+			c.Count("follow_up_saves_compared", 1)
+			if aok != bok || !bytes.Equal(a, b) {
+				c.Violate("debris", "debris:"+strings.Join(strings.Split(f.name, ":")[:3], ":"), cs,
+					fmt.Sprintf("after %s the next (uninterrupted) save wrote %d bytes, in a directory holding only the state file it writes %d bytes: %q", f.name, len(a), len(b), clip(string(a))))
+			}
 		}
 	}
 }
